@@ -6,22 +6,23 @@ import os
 
 ROOT = os.path.dirname(os.path.dirname(os.path.abspath(__file__)))
 
-# id -> (category, level text, level note (trusted base), technique, design ref, engines)
-BUILT = {
-    "C15": (
-        "exploration",
-        "Generated point sets (6 input families incl. duplicates, per-coordinate ties, dominated points, +-inf; dims 1-5) "
-        "are pushed through the real compute_hypervolume / _fast_non_domination_rank (plain, n_below, constrained) / "
-        "_is_pareto_front / _solve_hssp and the TPE and NSGA-II call sites, and every result is judged by independent exact "
-        "oracles (inclusion-exclusion in rationals, O(n^2) front peeling, exhaustive C(n,k) subset search). Held on the "
-        "executions observed; no claim beyond n<=9 points.",
-        "Trusted: the brute-force oracles in vf/oracles.py (two hypervolume oracles are cross-checked against each other at "
-        "run time); tolerance 1e-9 relative plus 64 ulp of the largest box for cancellation.",
-        "runtime monitoring: generated inputs + exact reference oracle on the real functions",
-        "DESIGN.md §3 C15",
-        ["oracles"],
-    ),
-}
+import importlib
+import sys
+
+sys.path.insert(0, ROOT)
+
+
+def built():
+    """Every vf/checks/cNN.py that defines META is a claimed check."""
+    out = {}
+    for fn in sorted(os.listdir(os.path.join(ROOT, "vf", "checks"))):
+        if fn.startswith("c") and fn.endswith(".py") and fn[1:-3].isdigit():
+            mod = importlib.import_module("vf.checks." + fn[:-3])
+            if hasattr(mod, "META"):
+                m = mod.META
+                out[fn[:-3].upper()] = (m["category"], m["text"], m["note"], m["technique"], m["design_ref"], m["engines"])
+    return out
+
 
 NOT_BUILT_REASON = "check not built yet in this session (design in DESIGN.md §3); not claimed until its monitor runs clean"
 
@@ -30,6 +31,7 @@ def main() -> None:
     props = [json.loads(l) for l in open(os.path.join(ROOT, "properties.jsonl"))]
     checks = []
     na = []
+    BUILT = built()
     for p in props:
         pid = p["id"]
         if pid in BUILT and os.path.exists(os.path.join(ROOT, "vf", "checks", pid.lower() + ".py")):
